@@ -325,6 +325,7 @@ func CheckC15(e *Entry, src *choice.Src, st *Stats) *Violation {
 
 func runC15(e *Entry, ops []Op, st *Stats) *Violation {
 	res, evs, _ := RunHistory15(e, ops)
+	LastRunDigest = shortHash(historyDigestString(res))
 	sig, detail, stats := judge15(e, ops, res, evs)
 	if st != nil {
 		st.Runs++
